@@ -271,20 +271,67 @@ class Cases:
 
 
 # ------------------------------------------------------------------ generator wrappers
+def _rerepresent(v, rng):
+    """a Python-equal value of another type: 7 -> 7.0, 7.0 -> 7, True -> 1"""
+    if isinstance(v, bool):
+        return int(v) if rng.random() < 0.5 else v
+    if isinstance(v, int) and rng.random() < 0.5:
+        return float(v)
+    if isinstance(v, float) and v.is_integer() and rng.random() < 0.5:
+        return int(v)
+    return v
+
+
 def alias_meta(m, rng):
-    """An equal (==, same hash) Metadata written differently: details in another insertion order,
-    int limit as float."""
+    """A Python-equal Metadata written differently: detail dicts filled in the reverse key order,
+    numbers re-typed (7 vs 7.0, True vs 1), int limit as float.  No assertion on ==/hash here: the
+    library's own == / hash are under test, the oracles use an independent canonical key."""
     b = bermuda()
-    det = dict(reversed(list(m.details.items())))
-    ld = dict(reversed(list(m.loss_details.items())))
+    det = {k: _rerepresent(v, rng) for k, v in reversed(list(m.details.items()))}
+    ld = {k: _rerepresent(v, rng) for k, v in reversed(list(m.loss_details.items()))}
     lim = m.per_occurrence_limit
     if isinstance(lim, int) and not isinstance(lim, bool) and rng.random() < 0.7:
         lim = float(lim)
-    m2 = b.Metadata(risk_basis=m.risk_basis, country=m.country, currency=m.currency,
-                    reinsurance_basis=m.reinsurance_basis, loss_definition=m.loss_definition,
-                    per_occurrence_limit=lim, details=det, loss_details=ld)
-    assert m2 == m and hash(m2) == hash(m)
-    return m2
+    return b.Metadata(risk_basis=m.risk_basis, country=m.country, currency=m.currency,
+                      reinsurance_basis=m.reinsurance_basis, loss_definition=m.loss_definition,
+                      per_occurrence_limit=lim, details=det, loss_details=ld)
+
+
+def at_least_two_details(m):
+    """the metadata with >= 2 detail keys (so that a different insertion order exists)"""
+    if len(m.details) >= 2:
+        return m
+    b = bermuda()
+    det = dict(m.details)
+    for k, v in (("coverage", "BI"), ("state", "NY")):
+        det.setdefault(k, v)
+    return b.Metadata(risk_basis=m.risk_basis, country=m.country, currency=m.currency,
+                      reinsurance_basis=m.reinsurance_basis, loss_definition=m.loss_definition,
+                      per_occurrence_limit=m.per_occurrence_limit, details=det, loss_details=dict(m.loss_details))
+
+
+def moved_meta(m):
+    """A DIFFERENT Metadata with the same flattened content: one key moved from details to
+    loss_details, or a top-level attribute re-stated as a detail key of the same name"""
+    b = bermuda()
+    kw = dict(risk_basis=m.risk_basis, country=m.country, currency=m.currency,
+              reinsurance_basis=m.reinsurance_basis, loss_definition=m.loss_definition,
+              per_occurrence_limit=m.per_occurrence_limit, details=dict(m.details), loss_details=dict(m.loss_details))
+    movable = [k for k in m.details if k not in m.loss_details]
+    if movable:
+        k = movable[0]
+        kw["loss_details"] = {**kw["loss_details"], k: kw["details"].pop(k)}
+    elif m.currency is not None and "currency" not in m.details:
+        kw["details"]["currency"] = m.currency
+        kw["currency"] = None
+    elif m.country is not None and "country" not in m.details:
+        kw["details"]["country"] = m.country
+        kw["country"] = None
+    else:
+        kw["loss_details"] = {**kw["loss_details"], "coverage": "BI"}
+        return b.Metadata(**kw), b.Metadata(**{**kw, "loss_details": dict(m.loss_details),
+                                               "details": {**kw["details"], "coverage": "BI"}})
+    return b.Metadata(**kw), m
 
 
 def with_meta(c, m):
